@@ -49,4 +49,16 @@ func init() {
 		Shards: [2]int{16, 16}, MinEvals: [2]int{1000, 5000},
 		RequirePositive: "cmp:", RequireCount: 61,
 	})
+	reg(&propCfg{
+		ID: "C05", Level: "exploration",
+		Rule: "every strategy of the five AllStrategies registries plus Envelope (SMA/EMA) and Trix, each at its default and at seeded random With-configurations, And/Or/Majority/Split over real sub-strategies, MACD-RSI, Inverse/NoLoss/StopLoss over base and compound strategies, nested decorators and every member of AllAndStrategies/AllSplitStrategies of a 4-element base list: for EVERY snapshot count n in [0, 2w_s+3] (stride > 1 only for the 200-period defaults) plus {w_s, w_s+1, 97, 251} on walk/ties/degenerate series the emitted actions are counted and inspected: len == n for n >= w_s, every action in {-1,0,1}, all actions before the warm-up Hold; for n < w_s only Holds and at least n of them. distinct_nontrivial counts (strategy, n >= w_s) pairs with exactly n actions.",
+		Shards: [2]int{16, 16}, MinEvals: [2]int{100, 300},
+		RequirePositive: "cmp:", RequireCount: 32,
+	})
+	reg(&propCfg{
+		ID: "C06", Level: "exploration",
+		Rule: "32 base strategies x (default + seeded random admissible configurations with thresholds chosen so that both sides of every comparison occur) x series classes (OHLCV fields varying independently) x n in {w_s+40, 251}: the action at every snapshot is compared with the documented decision rule applied to the values of the strategy's OWN indicator instance, computed through the public API from the documented snapshot fields extracted by the harness and aligned by IdlePeriod(); positions where the compared quantities are equal within 1e-9 are exempt. distinct_nontrivial counts (strategy configuration, class, n) cases with at least one compared position and at least one Buy or Sell.",
+		Shards: [2]int{16, 16}, MinEvals: [2]int{500, 3000},
+		RequirePositive: "cmp:", RequireCount: 32,
+	})
 }
